@@ -997,18 +997,18 @@ def run(ctx):
     ctx.exhaustive = True
     ctx.extra_cov["exhaustive_stratum"] = len(ex)
     run_cases(ctx, ex, rng)
-    n = ctx.n(5000, 120000)
+    n = ctx.n(4000, 120000)
     if not ctx.proof_ok or ctx.drift:
         n = max(n, 10000)
         ctx.notes.append("proof/correspondence broken: widened random search for a failing input")
     run_cases(ctx, [random_case(rng) for _ in range(n)], rng)
     # the same inputs on a mapper object that has been built before with other settings
-    reuse = reuse_cases(rng, ctx.tier) + [with_history(rng, random_case(rng)) for _ in range(ctx.n(1200, 30000))]
+    reuse = reuse_cases(rng, ctx.tier) + [with_history(rng, random_case(rng)) for _ in range(ctx.n(1000, 30000))]
     ctx.extra_cov["mapper_reuse_stratum"] = len(reuse)
     run_cases(ctx, reuse, rng)
     # last (state kept by the library would leak into later cases of the shared workers): callers that edit
     # the containers handed out by the public queries
-    qe = [query_edit_case(rng) for _ in range(ctx.n(400, 8000))]
+    qe = [query_edit_case(rng) for _ in range(ctx.n(300, 8000))]
     ctx.extra_cov["query_edit_stratum"] = len(qe)
     pool()  # imports before the fork
     run_cases(ctx, qe, rng)
